@@ -141,7 +141,7 @@ var c13KinFamilies = []c13Family{
 		Roles: []string{"restpath", "regexkey", "regexexcl", "ctl"}},
 	// a schema file and a word-list file of the same name under different roots
 	{Name: "schema", Kin: true, T: "alpha.json",
-		Roles: []string{"schema-a", "schema-b", "file-a", "file-b", "pm"}},
+		Roles: []string{"schema-a", "schema-b", "file-a", "file-b", "pm", "schemaid-a", "schemaid-b"}},
 }
 
 // c13ExtraRoles are second-round roles of first-round families (appended after everything else so that
@@ -182,6 +182,8 @@ func c13ResourceKind(a, b string) string {
 			return "ipdataset-name"
 		case "schema":
 			return "schema-name-different-root"
+		case "schemaid":
+			return "schema-same-id-different-content"
 		}
 		switch ba {
 		case "dataset", "dataset-redef":
@@ -264,10 +266,14 @@ func c13RoleText(f *c13Family, role string) (string, map[string]string) {
 		}
 		fmt.Fprintf(&sb, "SecDataset %s `\n%s`\n", T, nets)
 		fmt.Fprintf(&sb, "SecRule ARGS:p \"@ipMatchFromDataset %s\" \"id:1,phase:1,pass\"\n", T)
-	case "schema-a", "schema-b":
+	case "schema-a", "schema-b", "schemaid-a", "schemaid-b":
 		schema := c13SchemaA
-		if role == "schema-b" {
+		if strings.HasSuffix(role, "-b") {
 			schema = c13SchemaB
+		}
+		if strings.HasPrefix(role, "schemaid") {
+			// two schema documents that declare the same $id (two versions of one API schema, as deployed side by side)
+			schema = `{"$id":"https://schemas.example/alpha.json",` + schema[1:]
 		}
 		files = map[string]string{T: schema}
 		fmt.Fprintf(&sb, "SecRule ARGS:p \"@validateSchema %s\" \"id:1,phase:1,pass\"\n", T)
